@@ -46,6 +46,7 @@ type Opts struct {
 	SingleChild      bool // allow inner non-root nodes with one child
 	Hostile          bool // C01 style labels
 	NamePrefix       string
+	NoOver64         bool // never draw the 65..130-tip class (checks whose cost is quadratic per tip and that do not touch bitsets)
 }
 
 func pick(t *rapid.T, class int, label string) int {
@@ -232,6 +233,11 @@ func Tree(t *rapid.T, o Opts) *ref.Node {
 		maxTips = o.BigTips
 	}
 	n := rapid.IntRange(o.MinTips, maxTips).Draw(t, "ntips")
+	// one case in a hundred crosses the 64-tip boundary (second word of the split bitsets) in
+	// every tier, for every check that allows large trees
+	if o.BigTips >= 24 && !o.NoOver64 && rapid.IntRange(0, 99).Draw(t, "over64") == 0 {
+		n = rapid.IntRange(65, 130).Draw(t, "ntips64")
+	}
 	maxDeg := o.MaxDeg
 	if maxDeg == 0 {
 		maxDeg = 6
